@@ -537,6 +537,17 @@ func fatFillCycles(n int) []fatOp {
 	return ops
 }
 
+// fatHeldScript: write handles kept open while the same file grows through another handle, siblings are
+// created / renamed / removed, and the directory itself grows
+func fatHeldScript() []fatOp {
+	return []fatOp{
+		{A: "Create", P: "A"}, {A: "Append", P: "A", Len: 5, Tag: 1}, {A: "Hold", P: "A"}, {A: "Append", P: "A", Len: 5, Tag: 2}, {A: "WriteAt", P: "A", Off: 0, Len: 1, Tag: 3, Held: true},
+		{A: "Hold", P: "A"}, {A: "Create", P: "b"}, {A: "Append", P: "b", Len: 4, Tag: 4}, {A: "Append", P: "A", Len: 1, Tag: 5}, {A: "Append", P: "A", Len: 4, Tag: 6, Held: true},
+		{A: "Mkdir", P: "D"}, {A: "Create", P: "D/A"}, {A: "Hold", P: "D/A"}, {A: "Create", P: "D/b"}, {A: "Append", P: "D/b", Len: 5, Tag: 7}, {A: "Churn", P: "D", K: 20}, {A: "Append", P: "D/A", Len: 5, Tag: 9, Held: true},
+		{A: "Hold", P: "b"}, {A: "Remove", P: "A"}, {A: "Create", P: "L1"}, {A: "Rename", P: "L1", Q: "L2"}, {A: "WriteAt", P: "b", Off: 9, Len: 3, Tag: 8, Held: true}, {A: "Trunc", P: "b"},
+	}
+}
+
 func fatTraceBytes(behs [][]map[string]any) ([]byte, []int) {
 	var buf bytes.Buffer
 	var first []int
